@@ -344,17 +344,15 @@ pub fn all_scenarios(opts: &Opts, st: &mut Stats) -> Vec<(History, Vec<String>)>
     out
 }
 
-/// fixed large-amount history exhibiting KF1 (found by search in the W3c regime; see DESIGN 7.2)
+/// fixed large-amount history exhibiting KF1, constructed with src/bin/kf1search.rs: Q (quote) and F
+/// (fee at rate 0.33) with an unspent remainder r such that F*r/Q lies ~1e-16 above a half-unit
+/// boundary; the contract's 28-digit quotient lands on the other side (held fee one unit low).
 pub fn kf1_script(s: &mut Script) {
-    let size: u128 = 3_000_000_007;
-    let price = "20000000000003";
-    s.bid(1, "bobby", price, size);
-    s.ask(2, "alice", "base", "1", size);
-    // a ladder of odd partial rejects and fills leaves remainders whose quotient is not exact
-    for c in [1u128, 7, 1_000_003, 333_333_333, 5, 999_999_937] {
-        s.simple("reject_bid", "exec1", 1, Some(c), true);
-    }
-    s.mtch(2, 1, "1", 123_456_789, true);
-    s.mtch(2, 1, price, 77_777_777, true);
+    let q: u128 = 8_976_991_766_744_273;
+    let r: u128 = 997_443_529_638_247;
+    s.bid(1, "bobby", "1", q);
+    s.simple("reject_bid", "exec1", 1, Some(q - r), true);
+    s.ask(2, "alice", "base", "1", 1000);
+    s.mtch(2, 1, "1", 1000, true);
     s.simple("cancel_bid", "bobby", 1, None, true);
 }
